@@ -51,6 +51,8 @@ def run(ctx):
         v1(F, res)
         v2(F, res)
         v3(F, res)
+        v4(F, res)
+        v5(F, res)
     except EvalError as e:
         res.error('not analysable: %s' % e)
     return res
@@ -276,3 +278,152 @@ def v3(F, res):
         res.ok('locals/define_locals', {'worlds': n_ok, 'order': 'read count, read type -> define_locals(pos, count, ty)? -> locals.add'})
     elif not any(v['key'].startswith(res.rule + ' / locals/') for v in res.violations):
         res.error('parse_local_functions: no analysable locals loop')
+
+
+INSTRS_MUT = re.compile(r"&('\w+ )?mut (std::vec::Vec<\(ir::Instr, ir::InstrLocId\)[^>]*>|\[\(ir::Instr, ir::InstrLocId\)\])")
+APPENDERS = {'push', 'reserve', 'reserve_exact', 'extend', 'extend_from_slice', 'push_within_capacity'}
+
+
+def v4(F, res):
+    """(v4) what the operator loop has appended stays appended: in every function the body parser can reach, the only
+    thing done to a sequence's instruction list through a mutable reference is appending to it.  (The validator accepted
+    the operators one by one in input order; an operator dropped, replaced or reordered afterwards is no longer the
+    function that was validated.)"""
+    from mirinline import callee_of
+    seen, todo = set(), [LFP]
+    while todo:
+        p = todo.pop()
+        if p in seen or p not in F.mir:
+            continue
+        seen.add(p)
+        for q in F.mir:
+            if q.startswith(p + '::{closure') and q not in seen:
+                todo.append(q)
+        for b in F.mir[p]['blocks']:
+            t = b['term']
+            if t.get('t') == 'Call':
+                c = callee_of(t, F)
+                if c and c not in seen:
+                    todo.append(c)
+    if len(seen) < 10:
+        res.error('function-body/instrs-append-only: only %d functions reachable from LocalFunction::parse' % len(seen))
+        return
+    bad, n = [], 0
+    for p in sorted(seen):
+        body = F.mir[p]
+        for b in body['blocks']:
+            t = b['term']
+            if t.get('t') == 'Call':
+                k = (t.get('func') or {}).get('k') or {}
+                ty = k.get('ty') or ''
+                params = ty[ty.find('fn(') + 3:ty.rfind(') ')] if 'fn(' in ty else ''
+                if not INSTRS_MUT.search(params) or k.get('rlocal'):
+                    continue         # a local helper taking the list is itself in `seen`
+                n += 1
+                last = re.sub(r'<.*$', '', (k.get('resolved') or k.get('fn') or '').split('::')[-1])
+                if last not in APPENDERS:
+                    bad.append('%s calls %s on an instruction list' % (p.split('::')[-1], (k.get('fn') or '?').replace('std::vec::', '')))
+            for st in b['stmts']:
+                if st.get('s') == 'Assign':
+                    pl = st.get('p') or []
+                    if len(pl) > 1 and pl[-1] == '.instrs' and (st.get('r') or {}).get('rv') != 'Aggregate':
+                        n += 1
+                        bad.append('%s assigns a whole instruction list' % p.split('::')[-1])
+    if bad:
+        res.bad('function-body/instrs-append-only', 'while a function body is parsed, instructions already appended to a sequence must '
+                'stay as validated: %s' % '; '.join(sorted(set(bad))[:4]))
+    elif n == 0:
+        res.error('function-body/instrs-append-only: no append site found among %d functions' % len(seen))
+    else:
+        res.ok('function-body/instrs-append-only', {'functions_reachable_from_body_parser': len(seen), 'mutable_uses_of_instr_lists': n,
+                                                    'all': 'append'})
+
+
+UNVALIDATED_INPUT = re.compile(r'wasmparser::Name<|wasmparser::NameSectionReader|wasmparser::ProducersField|wasmparser::ProducersSectionReader|RawCustomSection')
+PANICKY = re.compile(r'^(core|std)::panicking::|::(unwrap|expect|unwrap_err|expect_err|unwrap_unchecked)$|^core::option::unwrap_failed|'
+                     r'^core::result::unwrap_failed|^core::slice::index::|::copy_from_slice$|::split_at(_mut)?$|^std::process::(abort|exit)')
+ARENA_HOME = ('tombstone_arena::', 'arena_set::')
+
+
+def v5(F, res):
+    """(v5) sections no validator looks at (name, producers, .debug*): the functions that interpret them cannot panic on
+    what they read.  Every function reachable from such a handler is scanned for panic-capable sites: explicit panics,
+    unwrap/expect, indexing of std collections (`map[&k]`, `v[i]`, bounds-check asserts), division.  The arenas' own
+    by-id accessors are the one accepted class: the ids these handlers hold come out of the index maps filled while
+    parsing, which only ever hold live ids (R-PUSHPAIR, R-ARENA)."""
+    from mirinline import callee_of
+    roots = set()
+    if MP not in F.mir:
+        res.error('anchor lost: Module::parse (MIR)')
+        return
+    # handlers anywhere below Module::parse (they may sit behind helpers that were split off): local functions that are
+    # handed a reader / raw copy of a section for which wasmparser has no validation call
+    below, todo = set(), [MP]
+    while todo:
+        q = todo.pop()
+        if q in below or q not in F.mir:
+            continue
+        below.add(q)
+        todo.extend(x for x in F.mir if x.startswith(q + '::{closure') and x not in below)
+        for b in F.mir[q]['blocks']:
+            t = b['term']
+            if t.get('t') == 'Call':
+                c = callee_of(t, F)
+                if c and c not in below:
+                    todo.append(c)
+    for c in below:
+        body = F.mir[c]
+        n = body.get('arg_count') or 0
+        sig = ' '.join(l.get('ty', '') for l in body['locals'][1:1 + n])
+        if c != MP and '{closure' not in c and UNVALIDATED_INPUT.search(sig):
+            if not any(h in c for h in ARENA_HOME) and 'ModuleCustomSections' not in c and 'RawCustomSection' not in c:
+                roots.add(c)
+    if len(roots) < 3:
+        res.error('unvalidated-section handlers: only %d found (%s)' % (len(roots), sorted(roots)))
+        return
+    for root in sorted(roots):
+        seen, todo = set(), [root]
+        while todo:
+            p = todo.pop()
+            if p in seen or p not in F.mir:
+                continue
+            seen.add(p)
+            todo.extend(q for q in F.mir if q.startswith(p + '::{closure') and q not in seen)
+            for b in F.mir[p]['blocks']:
+                t = b['term']
+                if t.get('t') == 'Call':
+                    c = callee_of(t, F)
+                    if c and c not in seen:
+                        todo.append(c)
+        sites = []
+        for p in sorted(seen):
+            if any(h in p for h in ARENA_HOME):
+                continue
+            for b in F.mir[p]['blocks']:
+                t = b['term']
+                if t.get('t') == 'Call':
+                    k = (t.get('func') or {}).get('k') or {}
+                    if k.get('rlocal'):
+                        continue
+                    fn = norm_path_(k.get('resolved') or k.get('fn') or '')
+                    ty = k.get('ty') or ''
+                    if k.get('trait') in ('std::ops::Index', 'std::ops::IndexMut'):
+                        recv = (k.get('gargs') or ['?'])[0]
+                        if re.match(r'(id_arena::Arena|tombstone_arena::TombstoneArena|arena_set::ArenaSet)<', recv):
+                            continue
+                        sites.append('%s indexes a %s' % (p.split('::')[-1], re.sub(r'<.*$', '', recv)))
+                    elif PANICKY.search(fn):
+                        sites.append('%s calls %s' % (p.split('::')[-1], fn.split('::')[-1] if not fn.startswith('core::panicking') else 'panic!'))
+                elif t.get('t') == 'Assert' and t.get('msg') in ('BoundsCheck', 'DivisionByZero', 'RemainderByZero'):
+                    sites.append('%s has a %s' % (p.split('::')[-1], t.get('msg')))
+        short = root.split('::')[-1]
+        if sites:
+            res.bad('unvalidated-section/no-panic/' + short, '%s interprets a custom section no validator has seen, and can panic on it: %s'
+                    % (short, '; '.join(sorted(set(sites))[:4])))
+        else:
+            res.ok('unvalidated-section/no-panic/' + short, {'handler': short, 'functions_scanned': len(seen), 'panic_capable_sites': 0})
+
+
+def norm_path_(p):
+    from heval import norm_path
+    return norm_path(p) or ''
